@@ -1,0 +1,46 @@
+//go:build verif
+
+package search
+
+// Hooks for the verification framework in /verif (build tag verif; add-only file shared by the
+// checks of several properties: append new functions, never rewrite those of another property).
+
+// VerifState (property C04) is a deep copy of the unexported state of a GraphIterator between
+// two calls of Next, including the parts of the backing arrays of the graph beyond their
+// lengths.
+type VerifState struct {
+	N, A, M     int
+	First       bool
+	NV, NE      int
+	Deg         []int
+	DegTail     []int // DegreeSequence[len:cap]
+	Edg         []byte
+	EdgTail     []byte // Edges[len:cap]
+	PermNil     bool
+	Perm        []int
+	Orbits      []int
+	Generators  [][]int
+	ViableBits  uint
+	Choices     []uint
+	CurrentPath []int
+}
+
+// VerifDump (property C04) copies the state of iter.
+func VerifDump(iter *GraphIterator) VerifState {
+	g := iter.sg.G
+	s := VerifState{N: iter.n, A: iter.a, M: iter.m, First: iter.first, NV: g.NumberOfVertices, NE: g.NumberOfEdges}
+	s.Deg = append([]int{}, g.DegreeSequence...)
+	s.DegTail = append([]int{}, g.DegreeSequence[len(g.DegreeSequence):cap(g.DegreeSequence)]...)
+	s.Edg = append([]byte{}, g.Edges...)
+	s.EdgTail = append([]byte{}, g.Edges[len(g.Edges):cap(g.Edges)]...)
+	s.PermNil = iter.sg.Perm == nil
+	s.Perm = append([]int{}, iter.sg.Perm...)
+	s.Orbits = append([]int{}, iter.sg.Orbits...)
+	for _, gen := range iter.sg.Generators {
+		s.Generators = append(s.Generators, append([]int{}, gen...))
+	}
+	s.ViableBits = iter.options.ViableBits
+	s.Choices = append([]uint{}, iter.choices...)
+	s.CurrentPath = append([]int{}, iter.currentPath...)
+	return s
+}
